@@ -275,3 +275,29 @@ func (c *Case) Denoted(fullName, req string) (string, bool) {
 	}
 	return best, true
 }
+
+// DirectVersionOf reports the version of the node the root depends on directly through an edge on
+// fullName whose KnownAs attribute (npm alias; "" for a plain dependency) equals knownAs. n is the number
+// of distinct such versions (the version is only meaningful for n == 1).
+func DirectVersionOf(g *resolve.Graph, fullName, knownAs string) (version string, n int) {
+	if g == nil {
+		return "", 0
+	}
+	seen := map[string]bool{}
+	for _, e := range g.Edges {
+		if e.From != 0 || g.Nodes[e.To].Version.Name != fullName {
+			continue
+		}
+		if ka, _ := e.Type.GetAttr(dep.KnownAs); ka != knownAs {
+			continue
+		}
+		seen[g.Nodes[e.To].Version.Version] = true
+	}
+	for v := range seen {
+		version = v
+	}
+	if len(seen) != 1 {
+		version = ""
+	}
+	return version, len(seen)
+}
